@@ -12,7 +12,20 @@
 
 namespace {
 
-using Sig = cocls::signal<int>;
+// value type with a non-trivial lifetime: a listener that is handed a value whose lifetime has ended reads the poison
+struct Val {
+    int v, chk;
+    Val(long x) : v((int)x), chk(~(int)x) {}  // in-place construction through the collector's (Args&&...) overload
+    Val(const Val &) = default;
+    Val &operator=(const Val &) = default;
+    ~Val() {
+        volatile int *p = &v, *q = &chk;
+        *p = -7777;
+        *q = 0;
+    }
+    int get() const { return chk == ~v ? v : -7777; }
+};
+using Sig = cocls::signal<Val>;
 enum Op { ARRIVE0 = 0, ARRIVE1, ARRIVE2, LEAVE0, LEAVE1, LEAVE2, CONNECT_T, CONNECT_F, CALL_VAL, CALL_RV, CALL_LV, DROP_SIG, DROP_COL, COPY_COL, HOOKUP, HOOK_CALL, HOOK_DROP, NOPS };
 static const char *op_names[] = {"arrive0", "arrive1", "arrive2", "leave0", "leave1", "leave2", "connect_true", "connect_false", "call(value)", "call(rvalue)", "call(lvalue)",
                                  "drop_signal", "drop_collector", "copy_collector", "hook_up", "hook_call", "hook_drop"};
@@ -144,8 +157,8 @@ static cocls::async<void> listener(World &w, int k) {
     Sig::emitter em = w.em0;
     for (;;) {
         try {
-            int &v = co_await em;
-            w.rec[k].push_back(v);
+            Val &v = co_await em;
+            w.rec[k].push_back(v.get());
             if (w.leave[k]) break;
         } catch (const cocls::await_canceled_exception &) {
             w.rec[k].push_back(-1);
@@ -158,8 +171,8 @@ static cocls::async<void> hook_listener(World &w) {
     auto e = Sig::hook_up([&w](Sig::collector c) { w.hook_col.emplace(std::move(c)); });
     for (;;) {
         try {
-            int &v = co_await e;
-            w.rec[NL].push_back(v);
+            Val &v = co_await e;
+            w.rec[NL].push_back(v.get());
         } catch (const cocls::await_canceled_exception &) {
             w.rec[NL].push_back(-1);
             break;
@@ -218,29 +231,34 @@ static void run_case(seqx::Runner &R, const std::vector<int> &seq) {
                 case LEAVE1:
                 case LEAVE2: w->leave[op - LEAVE0] = true; break;
                 case CONNECT_T:
-                    w->sig->connect([wp = w.get()](int &v) {
-                        wp->cb_rec[0].push_back(v);
+                    w->sig->connect([wp = w.get()](Val &v) {
+                        wp->cb_rec[0].push_back(v.get());
                         return true;
                     });
                     break;
                 case CONNECT_F:
-                    w->sig->connect([wp = w.get()](int &v) {
-                        wp->cb_rec[1].push_back(v);
+                    w->sig->connect([wp = w.get()](Val &v) {
+                        wp->cb_rec[1].push_back(v.get());
                         return false;
                     });
                     break;
                 case CALL_VAL: {
-                    long wide = next_val++;  // goes through the constructing overload (Args&&...)
-                    (*w->col)(wide);
+                    long wide = next_val++;  // goes through the constructing overload (Args&&...): in place or from a const lvalue
+                    if (wide & 1)
+                        (*w->col)(wide);
+                    else {
+                        const Val cv(wide);
+                        (*w->col)(cv);
+                    }
                     break;
                 }
                 case CALL_RV: {
-                    int v = next_val++;
+                    Val v(next_val++);
                     (*w->col)(std::move(v));
                     break;
                 }
                 case CALL_LV: {
-                    int v = next_val++;
+                    Val v(next_val++);
                     (*w->col)(v);
                     break;
                 }
@@ -261,7 +279,7 @@ static void run_case(seqx::Runner &R, const std::vector<int> &seq) {
                     }
                     break;
                 case HOOK_CALL: {
-                    int v = next_val++;
+                    Val v(next_val++);
                     (*w->hook_col)(v);
                     break;
                 }
